@@ -30,6 +30,9 @@ pub struct Aggregator {
 
     /// Set of running sessions which have entered live mode.
     live_mode: HashSet<SessionId>,
+
+    /// Bytes (sent, received) of running sessions which were already added to the topic totals.
+    counted_bytes: HashMap<SessionId, (u32, u32)>,
 }
 
 impl Aggregator {
@@ -93,8 +96,7 @@ impl Aggregator {
             }
             TopicLogSyncEvent::SyncFinished { metrics } => {
                 self.session_metrics.insert(session_id, metrics.clone());
-                self.total_bytes_sent += metrics.sent_bytes();
-                self.total_bytes_received += metrics.received_bytes();
+                self.add_uncounted_bytes(session_id, &metrics);
                 Some(SyncEvent::SyncEnded {
                     remote,
                     session_id,
@@ -108,9 +110,10 @@ impl Aggregator {
                 })
             }
             TopicLogSyncEvent::SessionFinished { metrics } => {
+                // The final metrics include what was already counted when the sync phase finished,
+                // only add what the session transferred since then.
+                self.add_uncounted_bytes(session_id, &metrics);
                 self.handle_session_end(session_id);
-                self.total_bytes_sent += metrics.sent_bytes();
-                self.total_bytes_received += metrics.received_bytes();
                 None
             }
             TopicLogSyncEvent::Failed { error } => {
@@ -134,9 +137,19 @@ impl Aggregator {
         }
     }
 
+    /// Add the bytes of a session to the topic totals which have not been counted yet.
+    fn add_uncounted_bytes(&mut self, session_id: SessionId, metrics: &Metrics) {
+        let counted = self.counted_bytes.entry(session_id).or_default();
+        self.total_bytes_sent += metrics.sent_bytes().saturating_sub(counted.0);
+        self.total_bytes_received += metrics.received_bytes().saturating_sub(counted.1);
+        counted.0 = counted.0.max(metrics.sent_bytes());
+        counted.1 = counted.1.max(metrics.received_bytes());
+    }
+
     fn handle_session_end(&mut self, session_id: SessionId) -> Metrics {
         self.running_sessions = self.running_sessions.saturating_sub(1);
         self.live_mode.remove(&session_id);
+        self.counted_bytes.remove(&session_id);
         self.session_metrics.remove(&session_id).unwrap_or_default()
     }
 
